@@ -656,7 +656,7 @@ fault_harness!(tx_commit_fault_07_seek, 7, 0);
 fault_harness!(tx_commit_fault_08_write, 8, 0);
 // @ob props=C11 tier=quick cap=700 mem=10 fns=Tx::commit,TxInner::write_data,DBInner::meta,Meta::valid bound="call 8 (header page) is a short write of 8 bytes, the next call fails: torn header" unwind=520
 fault_harness!(tx_commit_fault_08_short, 8, 8);
-// @ob props=C11 tier=quick cap=700 mem=10 fns=Tx::commit,TxInner::write_data,DBInner::meta,Meta::valid bound="call 8 (header page) is a short write of 128 bytes -- the complete header record with its checksum -- and the next call fails" unwind=520
+// @ob props=C11 tier=quick cap=750 mem=10 fns=Tx::commit,TxInner::write_data,DBInner::meta,Meta::valid bound="call 8 (header page) is a short write of 128 bytes -- the complete header record with its checksum -- and the next call fails" unwind=520
 fault_harness!(tx_commit_fault_08_short_past_header, 8, 128);
 // @ob props=C11 tier=thorough cap=1200 mem=12 fns=Tx::commit,TxInner::write_data,DBInner::meta bound="failing call 9: flush after the header write" unwind=520
 fault_harness!(tx_commit_fault_09_flush, 9, 0);
